@@ -16,10 +16,11 @@ import (
 //	X0   an extra implementer of the first interface; its own field carries
 //	     arguments with enum / input-object / list defaults and is deprecated
 //	     with an EMPTY reason
-//	X1   a second extra implementer (of the last interface)
+//	X1   a second extra implementer (of the last interface, and of XI)
+//	XI   a standalone interface only X1 implements
 //	XD, XDIn (60%) argument types of a custom directive @xdir that nothing else references
 //
-// All four are appended to m.Extra; the names are returned.
+// These are appended to m.Extra; the names are returned.
 func extend(r *core.RNG, m *model.Schema) []string {
 	str := func(s string) *string { return &s }
 	kind := r.Intn(4)
@@ -104,10 +105,26 @@ func extend(r *core.RNG, m *model.Schema) []string {
 				{Name: "lin", Type: model.ListOf(model.Named("XIn")), HasDefault: true, Default: []interface{}{xinDefault}},
 				{Name: "plain", Type: model.NonNull(model.Named("Int"))},
 			}})
+		// XI: a standalone interface only X1 implements: supplied alone it has no possible types
+		xiArgs := []*model.InputDef{{Name: "n", Type: model.Named("Int"), HasDefault: true, Default: -1}}
+		m.Types = append(m.Types, &model.TypeDef{Kind: model.Interface, Name: "XI", Desc: "standalone interface", ThunkFields: r.Bool(), NoResolveType: true,
+			Fields: []*model.FieldDef{{Name: "xi", Type: model.Named("String"), Args: xiArgs}}})
+		names = append(names, "XI")
 		mkImpl("X1", ifaces[len(ifaces)-1], &model.FieldDef{Name: "x1_own", Type: model.NonNull(model.Named("String")), Deprecation: str("use x0"),
 			Args: []*model.InputDef{{Name: "l", Type: model.ListOf(model.Named("String")), HasDefault: true, Default: []interface{}{"a b", "c"}}}})
+		x1 := m.Types[len(m.Types)-1]
+		x1.Interfaces = append(x1.Interfaces, "XI")
+		x1.Fields = append(x1.Fields, &model.FieldDef{Name: "xi", Type: model.NonNull(model.Named("String")), Args: xiArgs})
 	}
 	m.Extra = append(m.Extra, names...)
+	// a subscription root (schemagen never makes one): only the roots clause and the type set look at it
+	if r.Bool() {
+		m.Subscription = "S"
+		m.Types = append(m.Types, &model.TypeDef{Kind: model.Object, Name: "S", Desc: "subscription root", Fields: []*model.FieldDef{
+			{Name: "s0", Type: model.Named("Int")},
+			{Name: "s1", Type: model.ListOf(model.Named("XE")), Args: []*model.InputDef{{Name: "only", Type: model.Named("XE"), HasDefault: true, Default: xe.Values[0].Internal}}},
+		}})
+	}
 	// a custom directive whose argument types NOTHING else references: they
 	// belong to the schema only as "argument types of the directives"
 	if r.Chance(60) {
